@@ -19,6 +19,106 @@ var wanted = []string{"round", "roundPlaces", "floor", "ceil", "inc", "dec", "de
 
 func q(s string) string { return strconv.Quote(s) }
 
+var conversions = map[string]bool{"float64": true, "int64": true, "int": true, "time.Duration": true}
+
+func copyLocals(m map[string]string) map[string]string {
+	c := map[string]string{}
+	for k, v := range m {
+		c[k] = v
+	}
+	return c
+}
+
+// stmts translates a straight-line body: definitions are inlined, `if c { return a }` followed by the rest becomes
+// `.ite c a rest`, the function's (first) result is the value.
+func stmts(list []ast.Stmt, locals map[string]string, fset *token.FileSet) string {
+	if len(list) == 0 {
+		return "(.unsupported \"no return\")"
+	}
+	switch s := list[0].(type) {
+	case *ast.AssignStmt:
+		if s.Tok == token.DEFINE && len(s.Lhs) == 1 && len(s.Rhs) == 1 {
+			if id, ok := s.Lhs[0].(*ast.Ident); ok {
+				l2 := copyLocals(locals)
+				l2[id.Name] = expr(s.Rhs[0], locals, fset)
+				return stmts(list[1:], l2, fset)
+			}
+		}
+		return "(.unsupported \"assignment\")"
+	case *ast.ReturnStmt:
+		if len(s.Results) >= 1 {
+			return expr(s.Results[0], locals, fset)
+		}
+		return "(.unsupported \"bare return\")"
+	case *ast.IfStmt:
+		l2 := copyLocals(locals)
+		if s.Init != nil {
+			as, ok := s.Init.(*ast.AssignStmt)
+			if !ok || as.Tok != token.DEFINE || len(as.Lhs) != 1 || len(as.Rhs) != 1 {
+				return "(.unsupported \"if init\")"
+			}
+			id, ok := as.Lhs[0].(*ast.Ident)
+			if !ok {
+				return "(.unsupported \"if init\")"
+			}
+			l2[id.Name] = expr(as.Rhs[0], locals, fset)
+		}
+		if s.Else != nil {
+			return "(.unsupported \"else\")"
+		}
+		return "(.ite " + expr(s.Cond, l2, fset) + " " + stmts(s.Body.List, l2, fset) + " " + stmts(list[1:], locals, fset) + ")"
+	}
+	return "(.unsupported " + q(fmt.Sprintf("%T", list[0])) + ")"
+}
+
+func paramList(ft *ast.FuncType) string {
+	var params []string
+	for _, p := range ft.Params.List {
+		ty := "?"
+		switch t := p.Type.(type) {
+		case *ast.Ident:
+			ty = t.Name
+		case *ast.SelectorExpr:
+			if pk, ok := t.X.(*ast.Ident); ok {
+				ty = pk.Name + "." + t.Sel.Name
+			}
+		}
+		for _, n := range p.Names {
+			params = append(params, "("+q(n.Name)+", "+q(ty)+")")
+		}
+	}
+	return "[" + strings.Join(params, ", ") + "]"
+}
+
+// guardOf finds, in a function that returns a function literal, the condition under which that literal refuses its
+// arguments: its first statement `if [init;] cond { return ..., err }`.
+func guardOf(fd *ast.FuncDecl, fset *token.FileSet) string {
+	for _, st := range fd.Body.List {
+		ret, ok := st.(*ast.ReturnStmt)
+		if !ok || len(ret.Results) != 1 {
+			continue
+		}
+		lit, ok := ret.Results[0].(*ast.FuncLit)
+		if !ok || len(lit.Body.List) == 0 {
+			continue
+		}
+		ifs, ok := lit.Body.List[0].(*ast.IfStmt)
+		if !ok {
+			return "(" + q(fd.Name.Name) + ", " + paramList(lit.Type) + ", (.unsupported \"no leading guard\"))"
+		}
+		locals := map[string]string{}
+		if ifs.Init != nil {
+			if as, ok := ifs.Init.(*ast.AssignStmt); ok && as.Tok == token.DEFINE && len(as.Lhs) == 1 && len(as.Rhs) == 1 {
+				if id, ok := as.Lhs[0].(*ast.Ident); ok {
+					locals[id.Name] = expr(as.Rhs[0], locals, fset)
+				}
+			}
+		}
+		return "(" + q(fd.Name.Name) + ", " + paramList(lit.Type) + ", " + expr(ifs.Cond, locals, fset) + ")"
+	}
+	return "(" + q(fd.Name.Name) + ", [], (.unsupported \"no function literal returned\"))"
+}
+
 // expr translates an expression; locals maps local names to their (already translated) definitions.
 func expr(e ast.Expr, locals map[string]string, fset *token.FileSet) string {
 	switch x := e.(type) {
@@ -49,10 +149,23 @@ func expr(e ast.Expr, locals map[string]string, fset *token.FileSet) string {
 		if x.Op == token.ADD {
 			return expr(x.X, locals, fset)
 		}
+		if x.Op == token.NOT {
+			return "(.lnot " + expr(x.X, locals, fset) + ")"
+		}
 	case *ast.BinaryExpr:
 		switch x.Op {
 		case token.ADD, token.SUB, token.MUL, token.QUO:
 			return "(.bin " + q(x.Op.String()) + " " + expr(x.X, locals, fset) + " " + expr(x.Y, locals, fset) + ")"
+		case token.LSS, token.LEQ, token.GTR, token.GEQ, token.EQL, token.NEQ:
+			return "(.cmp " + q(x.Op.String()) + " " + expr(x.X, locals, fset) + " " + expr(x.Y, locals, fset) + ")"
+		case token.LOR:
+			return "(.lor " + expr(x.X, locals, fset) + " " + expr(x.Y, locals, fset) + ")"
+		case token.LAND:
+			return "(.land " + expr(x.X, locals, fset) + " " + expr(x.Y, locals, fset) + ")"
+		}
+	case *ast.SelectorExpr:
+		if p, ok := x.X.(*ast.Ident); ok {
+			return "(.const " + q(p.Name+"."+x.Sel.Name) + ")"
 		}
 	case *ast.CallExpr:
 		name := ""
@@ -63,6 +176,9 @@ func expr(e ast.Expr, locals map[string]string, fset *token.FileSet) string {
 			if p, ok := f.X.(*ast.Ident); ok {
 				name = p.Name + "." + f.Sel.Name
 			}
+		}
+		if conversions[name] && len(x.Args) == 1 {
+			return "(.conv " + q(name) + " " + expr(x.Args[0], locals, fset) + ")"
 		}
 		if name != "" {
 			args := make([]string, len(x.Args))
@@ -112,43 +228,8 @@ func main() {
 		if !found {
 			continue
 		}
-		var params []string
-		for _, p := range fd.Type.Params.List {
-			ty := "?"
-			if id, ok := p.Type.(*ast.Ident); ok {
-				ty = id.Name
-			}
-			for _, n := range p.Names {
-				params = append(params, "("+q(n.Name)+", "+q(ty)+")")
-			}
-		}
-		locals := map[string]string{}
-		body := ""
-		for _, st := range fd.Body.List {
-			switch s := st.(type) {
-			case *ast.AssignStmt:
-				// single definitions `x := e` are inlined (straight-line code: every later use sees this value)
-				if s.Tok == token.DEFINE && len(s.Lhs) == 1 && len(s.Rhs) == 1 {
-					if id, ok := s.Lhs[0].(*ast.Ident); ok {
-						locals[id.Name] = expr(s.Rhs[0], locals, fset)
-						continue
-					}
-				}
-				body = "(.unsupported \"assignment\")"
-			case *ast.ReturnStmt:
-				if len(s.Results) == 1 && body == "" {
-					body = expr(s.Results[0], locals, fset)
-				} else {
-					body = "(.unsupported \"return\")"
-				}
-			default:
-				body = "(.unsupported " + q(fmt.Sprintf("%T", st)) + ")"
-			}
-		}
-		if body == "" {
-			body = "(.unsupported \"no return\")"
-		}
-		defs[fd.Name.Name] = "(" + q(fd.Name.Name) + ", [" + strings.Join(params, ", ") + "], " + body + ")"
+		body := stmts(fd.Body.List, map[string]string{}, fset)
+		defs[fd.Name.Name] = "(" + q(fd.Name.Name) + ", " + paramList(fd.Type) + ", " + body + ")"
 	}
 	fmt.Println("import Ysgo.Spec.FExpr")
 	fmt.Println("/-! GENERATED by tools/numfacts from base_functions.go — do not edit -/")
@@ -162,6 +243,33 @@ func main() {
 		}
 	}
 	fmt.Println(strings.Join(rows, ",\n"))
+	fmt.Println("]")
+	// the guards of the checked random built-ins
+	var guards []string
+	for _, d := range f.Decls {
+		if fd, ok := d.(*ast.FuncDecl); ok && fd.Body != nil && (fd.Name.Name == "checkedRandomRange" || fd.Name.Name == "checkedDice") {
+			guards = append(guards, "  "+guardOf(fd, fset))
+		}
+	}
+	fmt.Println("/-- the conditions under which the checked random built-ins refuse their arguments (local definitions inlined) -/")
+	fmt.Println("def guardSrc : List (String × List (String × String) × FE) := [")
+	fmt.Println(strings.Join(guards, ",\n"))
+	fmt.Println("]")
+	// the duration arithmetic of <<wait>>
+	f2, err := parser.ParseFile(fset, filepath.Join(repo, "command_storer.go"), nil, 0)
+	if err != nil {
+		fmt.Fprintln(os.Stderr, err)
+		os.Exit(1)
+	}
+	var durs []string
+	for _, d := range f2.Decls {
+		if fd, ok := d.(*ast.FuncDecl); ok && fd.Body != nil && fd.Recv == nil && fd.Name.Name == "secondsToDuration" {
+			durs = append(durs, "  ("+q(fd.Name.Name)+", "+paramList(fd.Type)+", "+stmts(fd.Body.List, map[string]string{}, fset)+")")
+		}
+	}
+	fmt.Println("/-- secondsToDuration of command_storer.go -/")
+	fmt.Println("def durationSrc : List (String × List (String × String) × FE) := [")
+	fmt.Println(strings.Join(durs, ",\n"))
 	fmt.Println("]")
 	fmt.Println("end Ysgo.Generated")
 }
